@@ -11,6 +11,7 @@ extern crate alloc;
 use vstd::prelude::*;
 use vstd::std_specs::hash::*;
 use vstd::std_specs::cmp::*;
+use vstd::std_specs::iter::IteratorSpec;
 use std::collections::*;
 use std::collections::hash_map;
 use std::hash::*;
